@@ -76,6 +76,14 @@ def main():
     cands = []
     ex = engine.explore('c03', 'path_order', cases, jobs=ck.jobs, deadline=time.time() + (900 if quick else 5400))
     cands += ck.absorb('clean at tag -> X.Y.Z; otherwise X.Y.Z < V < X.Y.(Z+1), both formats', ex, bounds=dict(configs=len(cases)), expect_tags=['flow_ok', 'clean_exact', 'clean_pre_exact', 'between'])
+    # differential validation: the text msym predicts for sampled clean-checkout paths == the real run_flow_pipeline output
+    for wt in ex.wsamples:
+        if wt.get('out') is None or 'arg' not in wt:
+            continue
+        r = flowlib.run_native(wt['arg'], wt['case'], wt['fmt'])
+        ck.validated += 1
+        if not r.get('ok') or r.get('out') != wt['out']:
+            ck.validation_mismatch.append(dict(case=wt['case'], fmt=wt['fmt'], msym=wt['out'], native=r.get('out', r.get('err', r.get('panic')))))
     ex = engine.explore('c03', 'path_monotone', mono, jobs=ck.jobs, deadline=time.time() + (600 if quick else 3600))
     cands += ck.absorb('commit post-mode: more commits -> strictly greater version', ex, bounds=dict(configs=len(mono)), expect_tags=['flow_ok', 'monotone'])
     seen = set()
